@@ -28,18 +28,19 @@ def run(ctx):
                 "times 1000, exact in half units), WidthPDF. MC_FontQuery enumerates: list = every glyph set over 5 names x every "
                 "encoding up to MaxEnc over the names, .notdef and a non-glyph name (absent, partial, missing glyphs, non-injective); "
                 "box = every command list up to 2 commands over a 3x3 grid (curves with control points outside) x 64 matrices (thorough: up to 3 commands x 8 matrices); "
-                "fbox = 3 glyphs x 7 archetypes each (empty, closepath only, point at origin, ...) x 64 matrices x with/without "
+                "biglist = seeded random glyph sets of up to 20 names with encodings of up to 6 entries; fbox = 3 glyphs x 7 archetypes each (empty, closepath only, point at origin, ...) x 64 matrices x with/without "
                 ".notdef; sim = seeded random fonts. Each font is built as *type1.Font and *afm.Metrics (encoding as given and "
                 "spread over 256 codes) and every query method is called for every pool name and a name that is no glyph; "
                 "results within 1e-9 relative. distinct = distinct fonts.")
     ctx.assumptions = ["'non-empty glyph box' in the font box is read on the box value: the zero rectangle is skipped (so the box "
                        "of a glyph whose only points lie at the origin is skipped as well)",
-                       "'alphabetically' = bytewise order of names (lower-case pool, no case question arises)",
+                       "'alphabetically' = bytewise order of names (the biglist pool has upper- and lower-case names)",
                        "metrics boxes are proper (ll <= ur); axis-aligned matrices only"]
     fams = [gen(ctx, "list", 3 if q else 4, 0),
             gen(ctx, "box", 0, 2),
             gen(ctx, "fbox", 0, 0),
-            gen(ctx, "sim", 4, 3, simulate=4000 if q else 150000)]
+            gen(ctx, "sim", 4, 3, simulate=4000 if q else 150000),
+            gen(ctx, "biglist", 6, 0, simulate=1500 if q else 40000)]
     if not q:
         fams.append(gen(ctx, "box", 0, 3))
     summ = ctx.vh_json("fontquery", *fams, timeout=2400)
